@@ -138,6 +138,12 @@ func (m MethodScope) populateImports(t types.Type, imports map[string]*Package) 
 		for i := 0; i < t.NumEmbeddeds(); i++ {
 			m.populateImports(t.EmbeddedType(i), imports)
 		}
+
+	case *types.Basic:
+		// unsafe.Pointer is the only basic type that lives in a package.
+		if t.Kind() == types.UnsafePointer {
+			imports["unsafe"] = m.registry.AddImport(types.Unsafe)
+		}
 	}
 }
 
